@@ -402,6 +402,11 @@ class CsrfProbe(RoleClient):
             elif op == "alt-session":
                 await self.alt_session(discover_ids(world))
             elif op == "use":
+                if step.get("stale_cookies"):
+                    # a replaying party is not a browser: it keeps presenting cookies past their Max-Age
+                    for name, (val, _) in list(self.jar.cookies.items()):
+                        self.jar.cookies[name] = (val, None)
+                    world.fired("client.stale_cookies")
                 await self.use(step["target"], step["token"], discover_ids(world))
             elif op == "sleep":
                 await self.sleep_us(int(step["us"]))
